@@ -51,8 +51,22 @@ def _elementwise(fname, pyf):
             return out
         if isinstance(x, (list, tuple)) and _has_sym(x):
             return f(_oarr(x))
+        if _st.ENGINE is not None and fname == "sqrt" and isinstance(x, (int, float, _np.integer, _np.floating)) and not isinstance(x, bool) and x > 0:
+            # A-real: the square root of a concrete non-square number is kept exact (algebraic), not rounded
+            r_ = float(x) ** 0.5
+            if abs(r_ - round(r_)) > 1e-12 or round(r_) ** 2 != x:
+                return pyf(x)
+        if _st.ENGINE is not None and fname in ("sin", "cos", "exp") and isinstance(x, (float, complex, _np.floating, _np.complexfloating)):
+            # A-real: a float within 1e-12 of a non-zero multiple of pi/4 denotes that multiple exactly
+            ang = x if fname != "exp" else (x.imag if isinstance(x, (complex, _np.complexfloating)) and x.real == 0 else None)
+            if ang is not None and ang != 0:
+                q = round(float(ang) / (_np.pi / 4))
+                if q != 0 and abs(float(ang) - q * _np.pi / 4) <= 1e-12 * max(1.0, abs(float(ang))):
+                    if fname == "exp":
+                        return pyf(SC(z3.RealVal(0), z3real(float(ang))))
+                    return pyf(float(ang))
         if isinstance(x, (bool, int, float, complex, _np.generic)) and not a and not k:
-            return pyf(x) if False else real(x)
+            return real(x)
         return real(x, *a, **k)
     f.__name__ = fname
     return f
@@ -217,6 +231,8 @@ NP.zeros_like = lambda a, dtype=None, **kw: _filled(a.shape, 0, dtype or (a.stor
 def _identity(n, dtype=float):
     dtype = _canon_dtype(dtype)
     if isinstance(n, SV) and concrete_value(n) is None:
+        if dtype in (complex, _np.complex128):
+            return SArr(Store(lambda idx: SC(z3.If(idx[0] == idx[1], z3.RealVal(1), z3.RealVal(0)), z3.RealVal(0)), (n, n), "complex"))
         return SArr(Store(lambda idx: SV(z3.If(idx[0] == idx[1], z3.RealVal(1), z3.RealVal(0))), (n, n), "real"))
     n = int(concrete_value(n)) if isinstance(n, SV) else int(n)
     if _st.ENGINE is not None:
@@ -419,6 +435,17 @@ def _diag(v, k=0):
         return _np.array([v[i, i] for i in range(min(v.shape))], dtype=object)
     return _np.diag(v, k)
 NP.diag = _diag
+
+
+def _round(x, decimals=0, **kw):
+    if _has_sym(x):
+        if decimals >= 10:
+            _st.ENGINE.trust("np.round(x, d>=10) of a symbolic value is treated as x (|error| <= 5e-11)")
+            return x
+        raise Undecided("np.round of a symbolic value to few decimals")
+    return _np.round(x, decimals, **kw)
+NP.round = _round
+NP.around = _round
 
 
 def _where(c, *a):
